@@ -52,24 +52,24 @@ Theorem C01_trace_wf_partial : forall ops f,
 Proof. exact trace_wf. Qed.
 Print Assumptions C01_trace_wf_partial.
 
-(* Surviving dimensions keep their unlimited flag (across renameDimensions: the dimension formerly called d
-   is the one now called rn d).  Proved for 13 of the 14 operations: copy, subsetVariables, renameVariable(s),
-   reorderDimensions, mask, eval, arithmetic (dimension table untouched), insertDimension, removeSingleton,
-   renameDimensions with ANY pairs, applyAlongDimensions, interpDimension, and sliceDimensions unless several index
-   arrays are used on a file that already has an UNLIMITED dimension called POINTS (slice_unl_ok; POINTS is re-created
-   as an ordinary dimension there).  PARTIAL: stack is covered by the correspondence check only.
-   (* UNPROVED: forall f others d f', impl_stack f others d = Ok f' -> unlim_keptb (fdims f) (fdims f') = true
-      -- believed true for dimension tables without repeated keys (which is all a dict can hold); the model's
-      tables are plain association lists and the statement needs that side condition. *) *)
+(* Dimension tables are dictionaries (no repeated keys); every operation, and hence every operation sequence, keeps
+   that representation invariant.  It is what the real OrderedDict guarantees by construction. *)
+Theorem C01_keys_nodup_invariant : forall ops f f',
+  keys_nodup (fdims f) = true -> run f ops = Ok f' -> keys_nodup (fdims f') = true.
+Proof. exact run_keys_nodup. Qed.
+Print Assumptions C01_keys_nodup_invariant.
+
+(* Surviving dimensions keep their unlimited flag, for ALL 14 operations (across renameDimensions: the dimension
+   formerly called d is the one now called rn d), from any file whose dimension table is a dictionary.
+   The one remaining side condition is slice_unl_ok: sliceDimensions with several index arrays re-creates the
+   dimension named by `newdims` (default POINTS) as an ordinary dimension; if the file already had an UNLIMITED
+   dimension of that name, the by-name statement is false (C01_slice_points_refuted below) — the old dimension does
+   not survive there, a new one takes its name.  Hence still `_partial`. *)
 Theorem C01_step_unlimited_partial : forall f o f',
-  step f o = Ok f' ->
-  match o with
-  | ORenameDim _ | OInsert _ _ _ _ _ _ | ORemove _ | OApply _ | OInterp _ _ => true
-  | OSlice ss => slice_unl_ok f ss
-  | _ => keeps_table o
-  end = true ->
+  keys_nodup (fdims f) = true -> step f o = Ok f' ->
+  (match o with OSlice ss => slice_unl_ok f ss | _ => true end) = true ->
   unlim_kept_op o (fdims f) (fdims f') = true.
-Proof. exact step_unlimited. Qed.
+Proof. exact step_unlimited_all. Qed.
 Print Assumptions C01_step_unlimited_partial.
 
 (* repaired renameDimensions: whenever it does not raise, every dimension entry is found under its new name *)
@@ -95,6 +95,16 @@ Theorem C01_eval_broadcast_refuted : exists f f',
   wfb f = true /\ step f (OEval 16 (EBin 6 11) false) = Ok f' /\ wfb f' = false.
 Proof. exists f_tyx. eexists. vm_compute. repeat split; reflexivity. Qed.
 Print Assumptions C01_eval_broadcast_refuted.
+
+(* the side condition of the unlimited-flag theorem is necessary: a file that already has an unlimited dimension called
+   POINTS (name 3), sliced with two index arrays *)
+Definition f_points : file :=
+  File [(3, (2, true)); (5, (3, false)); (6, (4, false))] [(11, Var [3; 5; 6] [2; 3; 4] [(0, true)])] [] [].
+Theorem C01_slice_points_refuted : exists f ss f',
+  wfb f = true /\ keys_nodup (fdims f) = true /\ step f (OSlice ss) = Ok f' /\ wfb f' = true
+  /\ unlim_kept_op (OSlice ss) (fdims f) (fdims f') = false.
+Proof. exists f_points, [(5, SList [0; 1]%Z); (6, SList [1; 2]%Z)]. eexists. vm_compute. repeat split; reflexivity. Qed.
+Print Assumptions C01_slice_points_refuted.
 
 (* hence the invariant over arbitrary sequences is refuted as well *)
 Theorem C01_run_wf_refuted : exists f ops f',
